@@ -11,6 +11,7 @@ import (
 	"context"
 	"fmt"
 	"io"
+	"math"
 	"os"
 	"path"
 	"reflect"
@@ -23,7 +24,6 @@ import (
 	"time"
 	"unsafe"
 
-	"github.com/logrange/logrange/api"
 	"github.com/logrange/logrange/pkg/cursor"
 	"github.com/logrange/logrange/pkg/model"
 	"github.com/logrange/logrange/pkg/model/field"
@@ -39,10 +39,12 @@ import (
 // ---------------------------------------------------------------- scenario
 
 type Ev struct {
-	Ts   int64       `json:"t"`
-	Msg  string      `json:"m"`
-	Flds [][2]string `json:"f,omitempty"`
-	Keep bool        `json:"k"`
+	Ts  int64  `json:"t"`
+	Msg string `json:"m"`
+	// MsgHex: the message in hex, for bytes JSON text cannot carry (invalid UTF-8); replaces Msg when the scenario is loaded
+	MsgHex string      `json:"mx,omitempty"`
+	Flds   [][2]string `json:"f,omitempty"`
+	Keep   bool        `json:"k"`
 }
 
 type Batch struct {
@@ -90,11 +92,14 @@ type Scenario struct {
 	MaxRec int64 `json:"maxrec,omitempty"` // MaxRecordSize of the scenario's server (0: default)
 	// Cleaner: a second pipesCleaner goroutine with a period of milliseconds runs beside everything (the service's own
 	// starts after one minute)
-	Cleaner bool          `json:"cleaner,omitempty"`
-	Sources [][][2]string `json:"sources"` // tag pairs sorted by key
-	Pipes   []PipeDef     `json:"pipes"`
-	Steps   []Step        `json:"steps"`
-	Stream  string        `json:"stream"`
+	Cleaner bool `json:"cleaner,omitempty"`
+	// NoBarrier: the harness's sentinel pipe (FROM barrier=b) is not created: the scenario's pipe is the ONLY pipe of the
+	// server. Only for scenarios that create the pipe before anything is written and write sequentially.
+	NoBarrier bool          `json:"nobarrier,omitempty"`
+	Sources   [][][2]string `json:"sources"` // tag pairs sorted by key
+	Pipes     []PipeDef     `json:"pipes"`
+	Steps     []Step        `json:"steps"`
+	Stream    string        `json:"stream"`
 }
 
 const deadline = 15 * time.Second
@@ -116,11 +121,17 @@ var (
 	gates   = map[string]*gate{}
 )
 
+// burst steps: how many writers of the step's sources have come to send their WriteEvent (one counter per step)
+var burstArrivals = map[string]*int{}
+
 func hook(point, src string) {
 	if point != "write-event" {
 		return
 	}
 	gatesMu.Lock()
+	if c := burstArrivals[src]; c != nil {
+		*c++
+	}
 	g := gates[src]
 	var hold bool
 	if g != nil && g.armed > 0 {
@@ -154,6 +165,9 @@ func saveHitCount(pname, src string) int {
 
 // TRUNCATE steps that removed the partition / only its chunks
 var truncDeleted, truncKept int32
+
+// burst steps taken, and the most WriteEvents seen waiting in the channel when the notificatior was released
+var burstSteps, burstMaxPending int32
 
 func pipeHook(point, pname, src string) {
 	if point != "pipe-save-state" {
@@ -210,9 +224,24 @@ func tagLine(t [][2]string) string {
 		if i > 0 {
 			sb.WriteByte(',')
 		}
-		sb.WriteString(kv[0] + "=" + kv[1])
+		sb.WriteString(kv[0] + "=" + tagValue(kv[1]))
 	}
 	return sb.String()
+}
+
+// tagValue writes a tag value for tag.Parse: plain words as they are, everything else as a quoted literal
+func tagValue(v string) string {
+	plain := len(v) > 0
+	for i := 0; i < len(v); i++ {
+		c := v[i]
+		if !(c >= 'a' && c <= 'z' || c >= 'A' && c <= 'Z' || c >= '0' && c <= '9') {
+			plain = false
+		}
+	}
+	if plain {
+		return v
+	}
+	return strconv.Quote(v)
 }
 
 func gPairs(p [][2]string) string {
@@ -263,12 +292,19 @@ func writePartial(srv *Server, tags string, b []Ev, refused int, maxRec int64) e
 	if len(b) > 0 {
 		last = b[len(b)-1].Ts
 	}
-	evs = append(evs, Ev{Ts: last, Msg: strings.Repeat("B", int(maxRec)+50)})
+	// one byte more than the limit (odd Refused) or well beyond it
+	n := int(maxRec) + 50
+	if refused%2 == 1 {
+		for n > 0 && int64((&model.LogEvent{Timestamp: last, Msg: []byte(strings.Repeat("B", n-1))}).WritableSize()) > maxRec {
+			n--
+		}
+	}
+	evs = append(evs, Ev{Ts: last, Msg: strings.Repeat("B", n)})
 	for i := 1; i < refused; i++ {
 		evs = append(evs, Ev{Ts: last, Msg: fmt.Sprintf("never%d", i)})
 	}
 	if err := writeBatch(srv, tags, evs); err == nil {
-		return fmt.Errorf("a request with a %d-byte record was accepted with MaxRecordSize %d", maxRec+50, maxRec)
+		return fmt.Errorf("a request with a record of %d message bytes was accepted with MaxRecordSize %d", n, maxRec)
 	}
 	return nil
 }
@@ -294,43 +330,46 @@ func writeBatch(srv *Server, tags string, evs []Ev) error {
 	return srv.Partitions.Write(context.Background(), tags, it, false)
 }
 
-// parseKV parses the "k=v,k2=v2" rendering of fields (the harness only uses plain names and values)
-func parseKV(s string) [][2]string {
-	if s == "" {
-		return nil
-	}
-	var res [][2]string
-	for _, p := range strings.Split(s, ",") {
-		i := strings.IndexByte(p, '=')
-		if i < 0 {
-			res = append(res, [2]string{p, "\x00novalue"})
-			continue
-		}
-		res = append(res, [2]string{p[:i], p[i+1:]})
-	}
-	return res
-}
-
-// readAll reads a whole partition selection through the query backend
+// readAll reads a whole partition selection through a cursor of its own. Timestamp, message and fields are taken as
+// stored: the fields are decoded from their binary form ([len]name[len]value...), not from a text rendering, so names and
+// values may hold any bytes.
 func readAll(srv *Server, from string) ([]DEv, error) {
-	req := &api.QueryRequest{Query: "SELECT FROM " + from, Limit: 1000}
+	ctx := context.Background()
+	cur, err := srv.Provider.GetOrCreate(ctx, cursor.State{Query: "select from " + from + " limit 1000000"}, false)
+	if err != nil {
+		if strings.Contains(err.Error(), "no sources") {
+			return nil, nil
+		}
+		return nil, err
+	}
+	defer srv.Provider.Release(ctx, cur)
 	var res []DEv
 	for {
-		r, err := srv.Querier.Query(context.Background(), req)
-		if err != nil && err != io.EOF {
+		le, _, err := cur.Get(ctx)
+		if err == io.EOF {
+			return res, nil
+		}
+		if err != nil {
 			return nil, err
 		}
-		if r == nil {
-			return res, nil
+		f := string(append([]byte{}, le.Fields...))
+		var fl [][2]string
+		for i := 0; i < len(f); {
+			n := int(f[i])
+			if i+1+n >= len(f) {
+				return nil, fmt.Errorf("fields of an event of %s are not [len]name[len]value...: %q", from, f)
+			}
+			k := f[i+1 : i+1+n]
+			i += n + 1
+			m := int(f[i])
+			if i+1+m > len(f) {
+				return nil, fmt.Errorf("fields of an event of %s are not [len]name[len]value...: %q", from, f)
+			}
+			fl = append(fl, [2]string{k, f[i+1 : i+1+m]})
+			i += m + 1
 		}
-		for _, e := range r.Events {
-			res = append(res, DEv{Ts: e.Timestamp, Msg: e.Message, Flds: parseKV(e.Fields)})
-		}
-		if len(r.Events) < 1000 {
-			return res, nil
-		}
-		nr := r.NextQueryRequest
-		req = &nr
+		res = append(res, DEv{Ts: le.Timestamp, Msg: string(append([]byte{}, le.Msg...)), Flds: fl})
+		cur.Next(ctx)
 	}
 }
 
@@ -477,6 +516,9 @@ const longFlushMs = 5000
 // Without this, events written (and acknowledged) before CREATE PIPE are copied whenever their notifications
 // are still queued at that moment (see docs/C10.md, pipe-copied-pre-creation-events).
 func (r *runner) barrier() error {
+	if r.sc.NoBarrier {
+		return nil
+	}
 	if r.barName == "" {
 		r.barName = pipeName()
 		if _, err := r.srv.Exec("CREATE PIPE " + r.barName + " FROM barrier=b"); err != nil {
@@ -520,7 +562,14 @@ func minusOnes(n int) []int {
 	return res
 }
 
-func (r *runner) sid(s int) string { return r.sc.Sources[s][len(r.sc.Sources[s])-1][1] }
+func (r *runner) sid(s int) string {
+	for _, kv := range r.sc.Sources[s] {
+		if kv[0] == "sid" {
+			return kv[1]
+		}
+	}
+	return ""
+}
 
 // liveOn: the live pipes that copy from source s and are not stuck at a record of it (a stuck worker never parks)
 func (r *runner) liveOn(s int) int {
@@ -633,7 +682,7 @@ func (r *runner) settle(newBySrc map[int][]Ev, parkTarget map[int]int, what stri
 	}
 	// journal order of the new events of each source
 	for s, evs := range newBySrc {
-		got, err := readAll(r.srv, "sid="+r.sc.Sources[s][len(r.sc.Sources[s])-1][1])
+		got, err := readAll(r.srv, "sid="+r.sid(s))
 		if err != nil {
 			return err
 		}
@@ -858,6 +907,133 @@ func (r *runner) run() error {
 			for s2 := range sc.Sources {
 				if p.def.Match[s2] {
 					p.ops[s2] = append(p.ops[s2], "SDelete")
+				}
+			}
+		case "burst":
+			// Far more writers than the WriteEvent channel holds (100) come to send while the notificatior is stopped at the
+			// lock of pipe st.Pipe: one event is in its hands, 100 fill the channel, the other writers wait in
+			// partition.Service.onWriteEvent until it drains. Every event must reach the pipes.
+			p := r.pipes[st.Pipe]
+			if !p.created || p.deleted {
+				return fmt.Errorf("%s: needs a live pipe", what)
+			}
+			newBySrc := map[int][]Ev{}
+			h0 := map[int]int{}
+			cnt := new(int)
+			for _, b := range st.Batches {
+				if err := r.ensureSrc(b.Src); err != nil {
+					return err
+				}
+				if _, dup := newBySrc[b.Src]; dup || !p.def.Match[b.Src] {
+					return fmt.Errorf("%s: one request per source, all matching the pipe", what)
+				}
+				newBySrc[b.Src] = b.Evs
+				h0[b.Src] = hitCount(r.srcIds[b.Src])
+			}
+			gatesMu.Lock()
+			for s := range newBySrc {
+				burstArrivals[r.srcIds[s]] = cnt
+			}
+			gatesMu.Unlock()
+			unregister := func() {
+				gatesMu.Lock()
+				for s := range newBySrc {
+					delete(burstArrivals, r.srcIds[s])
+				}
+				gatesMu.Unlock()
+			}
+			held, release, lockDone := make(chan struct{}), make(chan struct{}), make(chan bool, 1)
+			go func() {
+				lockDone <- r.srv.Pipes.VC10WithPipeLock(p.def.Name, func() { close(held); <-release })
+			}()
+			select {
+			case <-held:
+			case ok := <-lockDone:
+				unregister()
+				return fmt.Errorf("%s: could not take the lock of pipe %s (%v)", what, p.def.Name, ok)
+			}
+			var wg sync.WaitGroup
+			errs := make([]error, len(st.Batches))
+			for k, b := range st.Batches {
+				wg.Add(1)
+				go func(k int, b Batch) {
+					defer wg.Done()
+					errs[k] = writeBatch(r.srv, tagLine(sc.Sources[b.Src]), b.Evs)
+				}(k, b)
+			}
+			arrived := WaitFor(deadline, func() bool {
+				gatesMu.Lock()
+				defer gatesMu.Unlock()
+				return *cnt >= len(st.Batches)
+			})
+			// readable before any of the notifications is delivered (none is: the first stands at the pipe's lock)
+			if arrived {
+				for s := range newBySrc {
+					r.syncSrc(s)
+				}
+			}
+			pending := r.srv.Partitions.VC10PendingWriteEvents()
+			close(release)
+			<-lockDone
+			wgDone := make(chan struct{})
+			go func() { wg.Wait(); close(wgDone) }()
+			select {
+			case <-wgDone:
+			case <-time.After(2 * deadline):
+				unregister()
+				return fmt.Errorf("%s: the writers did not return after the notificatior was released", what)
+			}
+			unregister()
+			if !arrived {
+				return fmt.Errorf("%s: only %d of %d writers came to send their WriteEvent", what, *cnt, len(st.Batches))
+			}
+			for _, e := range errs {
+				if e != nil {
+					return e
+				}
+			}
+			atomic.AddInt32(&burstSteps, 1)
+			if pending > int(atomic.LoadInt32(&burstMaxPending)) {
+				atomic.StoreInt32(&burstMaxPending, int32(pending))
+			}
+			// the channel is FIFO: behind the sentinel's notification every notification that was sent has been handled
+			// (the sentinel is written when the channel has room again, so that its own notification is not what is judged)
+			WaitFor(deadline, func() bool { return r.srv.Partitions.VC10PendingWriteEvents() == 0 })
+			if err := r.barrier(); err != nil {
+				return err
+			}
+			for _, b := range st.Batches {
+				for _, q := range r.livePipes() {
+					if !q.def.Match[b.Src] {
+						continue
+					}
+					if _, _, _, ok := r.srv.Pipes.VC10PipeState(q.def.Name, r.srcIds[b.Src]); !ok {
+						r.fail("pipe-notification-not-delivered", fmt.Sprintf("%s: %d writers sent their WriteEvents at once (%d pending in the channel when the notificatior went on); the write of %d events to source %d (%s) was acknowledged and pipe %s never heard of that source", what, len(st.Batches), pending, len(b.Evs), b.Src, tagLine(sc.Sources[b.Src]), q.def.Name))
+						return errVerdict
+					}
+				}
+			}
+			targets := map[int]int{}
+			for s := range newBySrc {
+				targets[s] = h0[s] + r.liveOn(s)
+			}
+			if err := r.settle(newBySrc, targets, what); err != nil {
+				return err
+			}
+			for _, q := range r.pipes {
+				if !q.created || q.superseded {
+					continue
+				}
+				for s, evs := range newBySrc {
+					if !q.def.Match[s] {
+						continue
+					}
+					if q.deleted {
+						q.postDel = true
+					}
+					q.ops[s] = append(q.ops[s], GApp("SWrite", gEvents(q, evs)))
+					q.nontriv = true
+					q.seen[s] = true
 				}
 			}
 		case "admin":
@@ -1921,10 +2097,15 @@ type gen struct {
 	fk   string // filter kind of the scenario's pipe: "" | "K" (msg contains "K") | "E" (fields:env = "x")
 }
 
+// texts that a rendering or a parser between the source and the destination would trip over (none holds a 'K': the
+// filter of the filter streams is `msg contains "K"`)
+var oddTexts = []string{"", " ", "a b", " lead", "trail ", "a,b", "a=b", "a\\b", "a'b", "`x`", "{x}", "}", "a\nb", "a\tb", "a\x00b", "äöü", "日本", "UP", "a:b/c.d-e_f", "a\"b"}
+
 func (g *gen) event(fkind string) Ev {
 	g.ts += int64(g.r.Range(1, 5))
 	g.nmsg++
 	keep := true
+	ts := g.ts
 	msg := fmt.Sprintf("m%d", g.nmsg)
 	if g.r.Chance(1, 3) {
 		msg += strings.Repeat("x", g.r.Range(1, 24))
@@ -1932,7 +2113,6 @@ func (g *gen) event(fkind string) Ev {
 	if g.r.Chance(2, 5) {
 		msg += "K"
 	}
-	keep = strings.Contains(msg, "K")
 	var fl [][2]string
 	if g.r.Chance(1, 2) {
 		fl = append(fl, [2]string{"f", fmt.Sprintf("%d", g.r.Intn(3))})
@@ -1940,6 +2120,32 @@ func (g *gen) event(fkind string) Ev {
 			fl = append(fl, [2]string{"g", "v" + fmt.Sprintf("%d", g.r.Intn(9))})
 		}
 	}
+	hex := ""
+	if g.r.Chance(1, 6) {
+		// edge classes: the timestamp is not what orders the copy (equal to its neighbour, going back, zero, negative,
+		// the ends of int64), message and field texts with separators, quotes, blanks, control and non-ASCII bytes
+		switch g.r.Intn(7) {
+		case 0:
+			g.ts -= int64(g.r.Range(1, 5)) // the next event repeats or precedes this one's timestamp
+			if g.ts < ts-3 {
+				g.ts = ts - 3
+			}
+		case 1:
+			ts = []int64{0, -1, -1000000007, math.MinInt64, math.MaxInt64, math.MaxInt64 - 1, math.MinInt64 + 1}[g.r.Intn(7)]
+		case 2:
+			msg += g.r.PickStr(oddTexts...)
+		case 3:
+			// bytes that are not UTF-8
+			hex = fmt.Sprintf("%x", msg+"\xff\xfe\xc3")
+		case 4:
+			fl = append(fl, [2]string{"h", g.r.PickStr(oddTexts...)})
+		case 5:
+			fl = append(fl, [2]string{g.r.PickStr("a b", "H", "ä", "a.b", "x-y"), g.r.PickStr(oddTexts...)})
+		default:
+			fl = append(fl, [2]string{"sid", "s0"}, [2]string{"app", "a0"}) // own fields named and valued like tags of a source
+		}
+	}
+	keep = strings.Contains(msg, "K")
 	if g.fk == "E" {
 		// the filter names a field that is also a tag of every source: it must see the event's OWN fields only
 		switch g.r.Intn(3) {
@@ -1953,7 +2159,104 @@ func (g *gen) event(fkind string) Ev {
 			keep = false // no field env of its own (the source's tag env=x / env=y is not the event's field)
 		}
 	}
-	return Ev{Ts: g.ts, Msg: msg, Flds: fl, Keep: keep}
+	e := Ev{Ts: ts, Msg: msg, MsgHex: hex, Flds: fl, Keep: keep}
+	e.norm()
+	return e
+}
+
+// norm: the message of an event given in hex
+func (e *Ev) norm() {
+	if e.MsgHex != "" {
+		if b, err := hexDecode(e.MsgHex); err == nil {
+			e.Msg = string(b)
+		}
+	}
+}
+
+func hexDecode(h string) ([]byte, error) {
+	if len(h)%2 == 1 {
+		return nil, fmt.Errorf("odd hex")
+	}
+	b := make([]byte, len(h)/2)
+	for i := range b {
+		v, err := strconv.ParseUint(h[2*i:2*i+2], 16, 8)
+		if err != nil {
+			return nil, err
+		}
+		b[i] = byte(v)
+	}
+	return b, nil
+}
+
+// edgeTags: which edge classes of the input a scenario holds (for the distribution in the evidence)
+func edgeTags(sc *Scenario) []string {
+	set := map[string]bool{}
+	plain := func(t string) bool {
+		for i := 0; i < len(t); i++ {
+			c := t[i]
+			if !(c >= 'a' && c <= 'z' || c >= 'A' && c <= 'Z' || c >= '0' && c <= '9') {
+				return false
+			}
+		}
+		return len(t) > 0
+	}
+	for _, src := range sc.Sources {
+		for _, kv := range src {
+			if !plain(kv[1]) {
+				set["edge:tag-value"] = true
+			}
+		}
+	}
+	last := map[int]int64{}
+	seen := map[int]bool{}
+	for _, st := range sc.Steps {
+		for _, b := range st.Batches {
+			if b.Fat > 0 {
+				set["edge:copy-over-maxrec"] = true
+			}
+			if b.Refused > 0 {
+				set["edge:request-over-maxrec"] = true
+			}
+			for _, e := range b.Evs {
+				if seen[b.Src] && e.Ts <= last[b.Src] {
+					set["edge:ts-not-increasing"] = true
+				}
+				seen[b.Src], last[b.Src] = true, e.Ts
+				if e.Ts <= 0 || e.Ts > 1<<40 {
+					set["edge:ts-zero-negative-extreme"] = true
+				}
+				if e.MsgHex != "" {
+					set["edge:msg-not-utf8"] = true
+				} else if !plain(e.Msg) {
+					set["edge:msg-text"] = true
+				}
+				for _, kv := range e.Flds {
+					if !plain(kv[0]) || !plain(kv[1]) {
+						set["edge:field-text"] = true
+					}
+					if kv[0] == "sid" || kv[0] == "app" {
+						set["edge:own-field-like-tag"] = true
+					}
+				}
+			}
+		}
+	}
+	var res []string
+	for k := range set {
+		res = append(res, k)
+	}
+	sort.Strings(res)
+	return res
+}
+
+func normScenario(sc *Scenario) {
+	for i := range sc.Steps {
+		for j := range sc.Steps[i].Batches {
+			for k := range sc.Steps[i].Batches[j].Evs {
+				sc.Steps[i].Batches[j].Evs[k].norm()
+			}
+		}
+	}
 }
 
 func (g *gen) batch(src, n int) Batch {
@@ -2011,6 +2314,17 @@ func mkSources(r *Rng, n int) [][][2]string {
 		env := r.PickStr("x", "y")
 		t := [][2]string{{"app", fmt.Sprintf("a%d", i%2)}, {"env", env}, {"sid", fmt.Sprintf("s%d", i)}}
 		res = append(res, t)
+	}
+	if n <= 4 && r.Chance(1, 3) {
+		// a further tag (the last of the line) whose value needs care on the way tag set -> tag line -> provenance fields.
+		// No double quote inside: tag.Set.Line() prints such a value raw and the line does not parse back (reported to the
+		// tag-line properties; the pipe then copies the events without provenance)
+		for i := range res {
+			if i == 0 || r.Chance(1, 2) {
+				v := r.PickStr(oddTexts[:len(oddTexts)-1]...)
+				res[i] = append(res[i], [2]string{"x", v})
+			}
+		}
 	}
 	return res
 }
@@ -2287,6 +2601,45 @@ func genHeld(r *Rng) *Scenario {
 	return sc
 }
 
+// a burst: far more writers than the WriteEvent channel holds send at once (the notificatior stands at the pipe's lock);
+// most of them write the first events of a partition the pipe has not seen
+func genBurst(r *Rng) *Scenario {
+	g := &gen{r: r, ts: int64(r.Range(0, 1000))}
+	sc := &Scenario{Stream: "burst", Chunk: 1 << 20}
+	ns := r.Range(115, 140)
+	sc.Sources = mkSources(r, ns)
+	all := make([]bool, ns)
+	for i := range all {
+		all[i] = true
+	}
+	sc.Pipes = []PipeDef{{Name: pipeName(), From: r.PickStr("", `sid like "s*"`), Match: all}}
+	few := func() Step {
+		st := Step{Kind: "wave", FlushFirst: r.Chance(1, 2)}
+		for s := 0; s < 3; s++ {
+			if s == 0 || r.Chance(1, 2) {
+				st.Batches = append(st.Batches, g.batch(s, r.Range(1, 3)))
+			}
+		}
+		return st
+	}
+	if r.Chance(1, 2) {
+		sc.Steps = append(sc.Steps, few())
+	}
+	sc.Steps = append(sc.Steps, Step{Kind: "create", Pipe: 0})
+	if r.Chance(1, 2) {
+		sc.Steps = append(sc.Steps, few())
+	}
+	b := Step{Kind: "burst", Pipe: 0}
+	for _, s := range r.Perm(ns) {
+		b.Batches = append(b.Batches, g.batch(s, r.PickInt(1, 1, 1, 2)))
+	}
+	sc.Steps = append(sc.Steps, b)
+	if r.Chance(1, 2) {
+		sc.Steps = append(sc.Steps, few())
+	}
+	return sc
+}
+
 // fatEvent: an event whose record is exactly maxRec bytes (the source partition takes it; with the source's tags appended
 // as fields it is bigger, and the pipe's partition refuses it)
 func fatEvent(g *gen, maxRec int64) Ev {
@@ -2296,6 +2649,22 @@ func fatEvent(g *gen, maxRec int64) Ev {
 		n--
 	}
 	return Ev{Ts: g.ts, Msg: strings.Repeat("F", n), Keep: false}
+}
+
+// copySized: an event without fields of its own whose COPY (with the tags of the source as fields) is a record of exactly
+// `size` bytes: size = MaxRecordSize is the biggest copy the destination takes, MaxRecordSize+1 the smallest it refuses
+func copySized(g *gen, tags [][2]string, size int64, c string) Ev {
+	g.ts += 1
+	var kv []string
+	for _, t := range tags {
+		kv = append(kv, t[0], t[1])
+	}
+	f, _ := field.NewFieldsFromSlice(kv...)
+	n := int(size)
+	for n > 0 && int64((&model.LogEvent{Timestamp: g.ts, Msg: []byte(strings.Repeat(c, n)), Fields: f}).WritableSize()) > size {
+		n--
+	}
+	return Ev{Ts: g.ts, Msg: strings.Repeat(c, n), Keep: false}
 }
 
 // a record whose copy the destination refuses every time: the pipes that reach it stay there (recorded finding), the
@@ -2327,7 +2696,16 @@ func genFat(r *Rng) *Scenario {
 		sc.Steps = append(sc.Steps, genWave(g, r, ns, true, true, nil))
 	}
 	fb := g.batch(0, r.Range(0, 3))
-	fb.Evs = append(fb.Evs, fatEvent(g, sc.MaxRec))
+	if r.Chance(1, 2) {
+		// the biggest copy the destination takes goes through
+		fb.Evs = append(fb.Evs, copySized(g, sc.Sources[0], sc.MaxRec, "G"))
+	}
+	if r.Chance(1, 2) {
+		fb.Evs = append(fb.Evs, fatEvent(g, sc.MaxRec))
+	} else {
+		// the smallest copy it refuses
+		fb.Evs = append(fb.Evs, copySized(g, sc.Sources[0], sc.MaxRec+1, "F"))
+	}
 	fb.Fat = len(fb.Evs)
 	fb.Evs = append(fb.Evs, g.batch(0, r.Range(0, 3)).Evs...)
 	fw := Step{Kind: "wave"}
@@ -2603,10 +2981,34 @@ func corpus() []*Scenario {
 			{Kind: "wave", Batches: []Batch{{Src: 0, Fat: 3, Evs: []Ev{{Ts: 1, Msg: "a", Keep: false}, {Ts: 2, Msg: "b", Keep: false}, fe, {Ts: 4, Msg: "d", Keep: false}}}}},
 			{Kind: "restart"},
 			{Kind: "wave", Batches: []Batch{{Src: 0, Evs: []Ev{{Ts: 5, Msg: "e", Keep: false}}}}}}}
-	return []*Scenario{flt, race, held, refused}
+	// the ends of the input dimensions in one fixed scenario: timestamps (ends of int64, zero, negative, equal, going
+	// back), an empty message, bytes that are not UTF-8, separators/quotes/blanks/control bytes in messages, field names
+	// and values and in a tag value (the last of the line, ending with the closing brace), an empty field value, own
+	// fields named like tags; two clean restarts in a row, a restart right after CREATE PIPE
+	esrc := [][][2]string{{{"app", "a0"}, {"env", "x"}, {"sid", "s0"}, {"x", "a b,c=d}"}}}
+	edge := &Scenario{Stream: "corpus-edge-inputs", Chunk: 1 << 20, Sources: esrc,
+		Pipes: []PipeDef{{Name: pipeName(), Match: []bool{true}}},
+		Steps: []Step{{Kind: "create"}, {Kind: "restart"},
+			{Kind: "wave", Batches: []Batch{{Src: 0, Evs: []Ev{
+				{Ts: math.MinInt64, Msg: "min"}, {Ts: math.MaxInt64, Msg: "max"}, {Ts: 0, Msg: ""}, {Ts: -1, Msg: "neg"},
+				{Ts: 5, Msg: "five"}, {Ts: 5, Msg: "five again"}, {Ts: 4, Msg: "back"},
+				{Ts: 6, MsgHex: "6e6f20757466fffec3"}, {Ts: 7, Msg: "a\nb,c=d \"q\" 'r' `s` {t}\x00"},
+				{Ts: 8, Msg: "f1", Flds: [][2]string{{"k", ""}, {"a b", "c,d=e\"f"}, {"ä", "日本"}}},
+				{Ts: 9, Msg: "f2", Flds: [][2]string{{"sid", "s0"}, {"x", "a b,c=d}"}, {"env", "x"}}}}}}},
+			{Kind: "restart"}, {Kind: "restart"},
+			{Kind: "wave", Batches: []Batch{{Src: 0, Evs: []Ev{{Ts: 3, Msg: "after"}}}}}}}
+	// a server whose only pipe is the one under test (every other scenario also has the harness's sentinel pipe)
+	single := &Scenario{Stream: "corpus-single-pipe", Chunk: 1 << 20, NoBarrier: true, Sources: src,
+		Pipes: []PipeDef{{Name: pipeName(), From: "app=a0", Match: []bool{true}}},
+		Steps: []Step{{Kind: "create"},
+			{Kind: "wave", Batches: []Batch{{Src: 0, Evs: []Ev{{Ts: 1, Msg: "a"}, {Ts: 2, Msg: "b"}}}}},
+			{Kind: "wave", FlushFirst: true, Batches: []Batch{{Src: 0, Evs: []Ev{{Ts: 3, Msg: "c"}}}}},
+			{Kind: "restart"},
+			{Kind: "wave", Batches: []Batch{{Src: 0, Evs: []Ev{{Ts: 4, Msg: "d"}}}}}}}
+	return []*Scenario{flt, race, held, refused, edge, single}
 }
 
-const rule = "end-to-end scenarios on an in-process server: 1-4 source partitions (unique sid tag), 1-3 pipes over four source-condition shapes, waves of 1-3 batches of 1-13 events per source (chunk size 300-2000 bytes in half of the scenarios so that batches straddle roll-overs), pipe creation before/after existing history, a second pipe created mid-history, DELETE PIPE with a control pipe, clean restart, two first writers with inverted notifications (schedule hook), concurrent writers on known sources, worker idle time-out with a write shortly before it, DELETE PIPE + CREATE PIPE again under the same name (names with '_', '/', ':', '.', '-', upper case; events before, between and after; one case per epoch), the same with DELETE PIPE while a worker of the pipe is held between its journal write and saveState (schedule point in ppipe.saveState), TRUNCATE of a fully copied source under live pipes (chunks only while something holds the partition; the partition itself right after a restart, then the pipes cleaner -- a second one with a period of milliseconds -- drops the descriptor and later writes go to a new partition), a record whose copy with the provenance fields exceeds MaxRecordSize (the destination refuses it every time; with clean restarts while the worker sleeps between attempts), registry operations that must be refused (second CREATE PIPE of a live name, conditions that do not compile, DELETE PIPE of an unknown name) or answered (DESCRIBE PIPE, list of pipes), requests refused half-way on a server with a small MaxRecordSize (the stored prefix counts as written; mostly the first write to a source since the pipe exists); one case per (pipe epoch, source); non-trivial iff the source matches the pipe and either a notification reached the pipe while it already knew the source (worker charged), or a restart/delete/re-creation/race/re-arm step was taken; distinct by scenario/pipe/source"
+const rule = "end-to-end scenarios on an in-process server: 1-4 source partitions (unique sid tag), 1-3 pipes over four source-condition shapes, waves of 1-3 batches of 1-13 events per source (chunk size 300-2000 bytes in half of the scenarios so that batches straddle roll-overs), pipe creation before/after existing history, a second pipe created mid-history, DELETE PIPE with a control pipe, clean restart, two first writers with inverted notifications (schedule hook), concurrent writers on known sources, worker idle time-out with a write shortly before it, DELETE PIPE + CREATE PIPE again under the same name (names with '_', '/', ':', '.', '-', upper case; events before, between and after; one case per epoch), the same with DELETE PIPE while a worker of the pipe is held between its journal write and saveState (schedule point in ppipe.saveState), TRUNCATE of a fully copied source under live pipes (chunks only while something holds the partition; the partition itself right after a restart, then the pipes cleaner -- a second one with a period of milliseconds -- drops the descriptor and later writes go to a new partition), a record whose copy with the provenance fields exceeds MaxRecordSize (the destination refuses it every time; with clean restarts while the worker sleeps between attempts), a burst of 115-140 concurrent writers (most of them first writers of their partition) whose WriteEvents outnumber the channel's 100 slots while the notificatior stands at the pipe's lock, registry operations that must be refused (second CREATE PIPE of a live name, conditions that do not compile, DELETE PIPE of an unknown name) or answered (DESCRIBE PIPE, list of pipes), requests refused half-way on a server with a small MaxRecordSize (the stored prefix counts as written; mostly the first write to a source since the pipe exists); one case per (pipe epoch, source); non-trivial iff the source matches the pipe and either a notification reached the pipe while it already knew the source (worker charged), or a restart/delete/re-creation/race/re-arm step was taken; distinct by scenario/pipe/source"
 
 // closeFdPool: the journal controller of the range library has no shutdown, so the reader file descriptors pooled by
 // a stopped server stay open for the life of the process (about 25 per scenario; a thorough run starts thousands of
@@ -2624,6 +3026,7 @@ func runScenario(sc *Scenario) ([]Case, error) {
 	if atomic.LoadInt32(&badScenarios) >= 6 {
 		return nil, nil
 	}
+	normScenario(sc)
 	r := &runner{sc: sc}
 	defer func() {
 		if r.srv != nil {
@@ -2738,6 +3141,9 @@ func main() {
 		for i := 0; i < c.N(8); i++ {
 			jobs = append(jobs, genFat(c.Rng.Fork()))
 		}
+		for i := 0; i < c.N(2); i++ {
+			jobs = append(jobs, genBurst(c.Rng.Fork()))
+		}
 		results := make([][]Case, len(jobs))
 		errs := make([]error, len(jobs))
 		Parallel(len(jobs), 8, func(i int) {
@@ -2751,7 +3157,11 @@ func main() {
 				c.Add(cs)
 			}
 			c.Tag("scenario:" + jobs[i].Stream)
+			for _, t := range edgeTags(jobs[i]) {
+				c.Tag(t)
+			}
 		}
+		c.Note("burst-steps", fmt.Sprintf("%d, up to %d WriteEvents pending in the channel (capacity 100)", atomic.LoadInt32(&burstSteps), atomic.LoadInt32(&burstMaxPending)))
 		c.Note("truncate-steps", fmt.Sprintf("partition deleted: %d, chunks only: %d", atomic.LoadInt32(&truncDeleted), atomic.LoadInt32(&truncKept)))
 		return c.Finish(rule)
 	})
